@@ -45,6 +45,32 @@ func DecodeVars(v map[string]any) map[string]any {
 	return out
 }
 
+// CopyJSON deep-copies a decoded JSON tree (maps, slices; scalars are immutable).
+func CopyJSON(v map[string]any) map[string]any {
+	if v == nil {
+		return nil
+	}
+	return copyAny(v).(map[string]any)
+}
+
+func copyAny(v any) any {
+	switch t := v.(type) {
+	case map[string]any:
+		m := make(map[string]any, len(t))
+		for k, e := range t {
+			m[k] = copyAny(e)
+		}
+		return m
+	case []any:
+		l := make([]any, len(t))
+		for i, e := range t {
+			l[i] = copyAny(e)
+		}
+		return l
+	}
+	return v
+}
+
 // GenValid generates an operation and returns its parsed document, or nil if gqlparser rejects it.
 func GenValid(schema *ast.Schema, seed int64, kind ast.Operation, cfg opgen.Config) (*opgen.Op, *ast.QueryDocument, string) {
 	op := opgen.Generate(schema, seed, kind, cfg)
@@ -71,11 +97,13 @@ type Outcome struct {
 func Compare(ctx context.Context, env *univ.Env, srv *drive.Server, doc *ast.QueryDocument, query, opName string, vars map[string]any, plan univ.Plan, run *univ.Run, timeout time.Duration) *Outcome {
 	omit, _ := env.Probe.Options["nullable_input_omittable"].(bool)
 	o := &Outcome{DirOrder: "outer-first"}
-	o.Want = ref.Execute(env, plan, doc, opName, vars, ref.Options{Omittable: omit})
+	// gqlparser's VariableValues coerces the caller's variables map in place: give each side its
+	// own copy so a case can be repeated (other plans, fault points) with pristine input.
+	o.Want = ref.Execute(env, plan, doc, opName, CopyJSON(vars), ref.Options{Omittable: omit})
 	if run == nil {
 		run = &univ.Run{Plan: plan}
 	}
-	o.Got = srv.Run(ctx, run, query, opName, vars, timeout)
+	o.Got = srv.Run(ctx, run, query, opName, CopyJSON(vars), timeout)
 	if o.Got.TimedOut {
 		o.Mismatch, o.Detail = "timeout", "response function did not return within the watchdog"
 		return o
@@ -110,7 +138,7 @@ func Compare(ctx context.Context, env *univ.Env, srv *drive.Server, doc *ast.Que
 	}
 	what, d := match(o.Want)
 	if what != "" && o.Want.Stats.Directives > 0 {
-		alt := ref.Execute(env, plan, doc, opName, vars, ref.Options{Omittable: omit, DirInnerFirst: true})
+		alt := ref.Execute(env, plan, doc, opName, CopyJSON(vars), ref.Options{Omittable: omit, DirInnerFirst: true})
 		if w2, _ := match(alt); w2 == "" {
 			o.Want = alt
 			o.DirOrder = "inner-first"
